@@ -26,7 +26,9 @@ KNOWN_TAGS = ['root', 'namespace', 'component', 'system', 'foreign', 'interface'
               'extern', 'import', 'file-name', 'scope_name', 'ports', 'port', 'formals', 'formal',
               'events', 'event', 'signature', 'types', 'fields', 'range', 'data', 'instances',
               'instance', 'bindings', 'binding', 'end-point', 'comment']
-BAD_IDS = ['', '1a', 'a b', 'a.b', 'a\n', 'é', 'in', 'void']
+BAD_IDS = ['', '1a', 'a b', 'a.b', 'a\n', 'é', 'in', 'void',
+           # characters that are special to str.format, %-formatting, string.Template, re and str.split
+           '{', '}', '{0}', '{x}', '{out}', 'in}', '%s', '%(a)s', '%', '$a', '\\', '\\1', '(', '[', '*', ' in', 'in ', 'a,b']
 RETYPES = [None, True, 7, 1.5, 's', [], {}, ['x'], [None], {'<class>': 'zzz'}, {'ids': ['a']}]
 
 LARGE_DOC = [
